@@ -158,6 +158,23 @@ func (d DataSpec) Generate() []byte {
 			out = append(out, blk[ph])
 			ph = (ph + 1) % p
 		}
+	case kind == "tokedge":
+		// incompressible bytes (one token per byte; two per token in the assembly match finders)
+		// up to just before the 32768-token block limit, then a run longer than 258 so that the
+		// limit falls inside the repeated 258-tokens, then more of the same
+		for len(out) < n {
+			p := 32768
+			if r.Intn(3) == 0 {
+				p = 65536
+			}
+			p -= r.Range(-5, 30)
+			out = append(out, r.Bytes(p)...)
+			b := byte(r.Intn(256))
+			for j := r.Range(300, 6000); j > 0; j-- {
+				out = append(out, b)
+			}
+			out = append(out, r.Bytes(r.Intn(100))...)
+		}
 	case kind == "rnd":
 		out = r.Bytes(n)
 	case kind == "mix":
